@@ -190,6 +190,17 @@ prop('C14', 'model_checking',
      'equality up to discretisation error.',
      'bounded symbolic execution of the real resume code + z3 invariant check', 'DESIGN.md 3/C14')
 
+prop('C07', 'other',
+     'PARTIAL (model identity). The real TDS.fg_update of a single-machine-infinite-bus System built through the public API (Slack, 1-2 '
+     'parallel Lines, GENCLS) at a fully symbolic point -- states, voltages, M, D, x\', ra, E\', Pm, f, every line parameter, machine and line '
+     'statuses: z3 decides that the textbook closed-form stator solution annihilates every algebraic row of the machine, that the differential '
+     'rows are delta\' = 2 pi f (omega-1) and M omega\' = Pm - E\'Iq - D(omega-1) (ra = 0: E\'V sin(delta-theta)/x\'), and that the bus rows are '
+     'the independent polar network balance minus the classical terminal powers. With C04 the integrated recurrence is the discretisation '
+     'of the reference ODE.',
+     'NOT decided: the property\'s limit statement (convergence of the float trajectory as h -> 0, error bound at default settings) -- follows '
+     'by the classical convergence theorem, which is not machine-checked; matrix-exponential benchmark on stock cases; other machine models.',
+     'symbolic execution of the real residual assembly (pysym) + z3 identity check against a textbook oracle', 'DESIGN.md 3/C07')
+
 ORDER = ['C%02d' % i for i in range(1, 21)]
 checks, na = [], []
 for pid in ORDER:
